@@ -9,4 +9,5 @@ let table : (string * (BinNums.coq_N list -> BinNums.coq_N list)) list = [
   ("mon_c19", MonGate.mon_c19);
   ("mon_c11", MonGate.mon_c11);
   ("mon_c17", MonGate.mon_c17);
+  ("mon_c15", MonTimers.mon_c15);
 ]
